@@ -5,13 +5,15 @@
   What is proved here for all DNAs: the nested-number form and the compact JSON value parse back
   (`DNA(nested)`) to the DNA they were exported from, under the explicit decidable condition
   `viewNorm` (the DNA is in constructor normal form and only `None` / numeric nodes have
-  children). What is carried by the correspondence run instead of a theorem (labelled as such in
-  the evidence): `from_numbers ∘ to_numbers = id` on valid DNAs (`C12_numbers_Full`), the 30
+  children); and `from_numbers ∘ to_numbers = id` on every valid DNA of every spec without custom
+  decision points (`C12_numbers`, with the counterexample when the condition is dropped). What is carried by the correspondence run instead of a theorem (labelled as such in
+  the evidence): the 30
   `to_dict` option triples verbatim, the node bindings after every producer
   (`next_dna`, `random_dna`, `from_numbers`, `from_dict`, parse + `use_spec`, `clone`, `Swap`);
   `from_dict`, verbose JSON and `dna[...]` lookups are checked by the oracle on the real code only.
 -/
 import PgProofs.GenoViews
+import PgProofs.GenoNumbers
 import PgModel.Geno.Valid
 namespace Pg.Geno
 
@@ -23,9 +25,26 @@ theorem C12_nested_roundtrip (d : DNA) (h : viewNorm d = true) : parse (toNested
 theorem C12_compact_roundtrip (d : DNA) (h : viewNorm d = true) : parse (toCompact d) = some d :=
   parse_toCompact d h
 
-/-- The flat-number view reconstructs, with the spec, the DNA (staged; see file header). -/
+/-- The flat-number view reconstructs, together with the spec, the DNA it was exported from:
+`DNA.from_numbers(d.to_numbers(), spec) == d` for every valid `d` of every spec without custom
+decision points (all spaces, single / multi choices in every mode, conditional sub-spaces, floats). -/
+theorem C12_numbers (g : Spec) (hc : g.noCustom = true) (d : DNA) (h : Valid g d) :
+    g.fromNumbers (flat d) = some d :=
+  fromNumbers_flat g hc d h
+
+/-- The same without the condition on custom points. -/
 def C12_numbers_Full : Prop :=
   ∀ (g : Spec) (d : DNA), g.wf = true → Valid g d → g.fromNumbers (flat d) = some d
+
+/-- Dropping `noCustom` fails: the children of a custom decision point's DNA are user defined
+(`validate` and binding accept them), `to_numbers` exports them, `from_numbers` reads one value.
+Replayed on the code: `DNA.from_numbers(DNA('abc', [DNA(0)]).to_numbers(), pg.geno.custom())`
+raises 'too long'. -/
+theorem C12_numbers_counterexample : ¬ C12_numbers_Full := by
+  intro h
+  have := h (.point (.custom {})) (.mk (.str "abc") [.mk (.int 0) []]) (by decide) (by decide)
+  revert this
+  decide
 
 /-- Every bound DNA the library hands out is aligned (staged: correspondence compares the binding
 of every node after every producer step). -/
